@@ -53,12 +53,37 @@ ASSIGN = {
     "inty": (S.val_base(3, 2), S.val_base(4, 1), {"add", "mulexact", "divtol"}, ("view", "Cint")),
     "tiny": (S.scaled(S.val_pow2(0), 2.0 ** -70), S.scaled(S.val_pow2(1), 2.0 ** -70), {"add", "unary", "scalartiny"}, ("C", "F")),
     "halfpow2": (S.val_halfpow(5), S.val_halfpow(0), {"mulexact", "divexact", "add"}, ("view", "F")),
+    # NaN, +-inf, +-0.0 among ordinary values; and an all-zero x against such a y (0 * inf, 0 * nan are NaN)
+    "special": (S.val_special(0), S.val_special(3), {"add", "mulexact", "unary"}, ("C", "F")),
+    "zerox": (S.val_zero(), S.val_special(1), {"add", "mulexact"}, ("C", "C")),
 }
-QUICK_ASSIGN = ("pow2", "signed", "primes", "halfpow", "base", "intx", "inty", "tiny")
+QUICK_ASSIGN = ("pow2", "signed", "primes", "halfpow", "base", "intx", "inty", "tiny", "special", "zerox")
 TOL = 1e-14
 HISTORY_ASSIGN = ("base", "primes", "halfpow", "signed", "intx")
 HISTORY_ASSIGN_QUICK = ("halfpow", "intx")
 GENESIS_ASSIGN = ("base", "primes")
+INPLACE_ASSIGN = ("base", "intx", "inty", "halfpow")  # families under which the augmented-assignment forms are run
+
+
+def nmin(a, b):
+    return float("nan") if (a != a or b != b) else min(a, b)
+
+
+def nmax(a, b):
+    return float("nan") if (a != a or b != b) else max(a, b)
+
+
+def nsign(v):
+    return v if v != v else float((v > 0) - (v < 0))
+
+
+def _inplace(sym):
+    """the augmented-assignment form  z = x; z <op>= y; z  (falls back to the binary operator when the class
+    defines no in-place method; either way the value bound afterwards is what is compared)"""
+    import operator as _o
+
+    f = {"+=": _o.iadd, "-=": _o.isub, "*=": _o.imul, "/=": _o.itruediv, "**=": _o.ipow}[sym]
+    return f
 
 
 def _ops():
@@ -66,8 +91,8 @@ def _ops():
     ops = {}
     ops["x+y"] = ("add", lambda X, Y: X + Y, lambda x, y: R.additive(x, y, operator.add), 0.0)
     ops["x-y"] = ("add", lambda X, Y: X - Y, lambda x, y: R.additive(x, y, operator.sub), 0.0)
-    ops["x.minimum(y)"] = ("add", lambda X, Y: X.minimum(Y), lambda x, y: R.additive(x, y, min), 0.0)
-    ops["x.maximum(y)"] = ("add", lambda X, Y: X.maximum(Y), lambda x, y: R.additive(x, y, max), 0.0)
+    ops["x.minimum(y)"] = ("add", lambda X, Y: X.minimum(Y), lambda x, y: R.additive(x, y, nmin), 0.0)
+    ops["x.maximum(y)"] = ("add", lambda X, Y: X.maximum(Y), lambda x, y: R.additive(x, y, nmax), 0.0)
     ops["x*y"] = ("mulexact", lambda X, Y: X * Y, lambda x, y: R.multiplicative(x, y, operator.mul), 0.0)
     ops["x/y exact"] = ("divexact", lambda X, Y: X / Y, lambda x, y: R.multiplicative(x, y, operator.truediv), 0.0)
     ops["x/y"] = ("divtol", lambda X, Y: X / Y, lambda x, y: R.multiplicative(x, y, operator.truediv), TOL)
@@ -85,16 +110,28 @@ def _ops():
             ops[f"{sn}-x{g}"] = (group, lambda X, Y, s=s: s - X, lambda x, y, fs=fs: R.elementwise(x, lambda v: fs - v), 0.0)
             ops[f"x*{sn}{g}"] = (group, lambda X, Y, s=s: X * s, lambda x, y, fs=fs: R.elementwise(x, lambda v: v * fs), 0.0)
             ops[f"{sn}*x{g}"] = (group, lambda X, Y, s=s: s * X, lambda x, y, fs=fs: R.elementwise(x, lambda v: fs * v), 0.0)
-            ops[f"x.minimum({sn}){g}"] = (group, lambda X, Y, s=s: X.minimum(s), lambda x, y, fs=fs: R.elementwise(x, lambda v: min(v, fs)), 0.0)
-            ops[f"x.maximum({sn}){g}"] = (group, lambda X, Y, s=s: X.maximum(s), lambda x, y, fs=fs: R.elementwise(x, lambda v: max(v, fs)), 0.0)
+            ops[f"x.minimum({sn}){g}"] = (group, lambda X, Y, s=s: X.minimum(s), lambda x, y, fs=fs: R.elementwise(x, lambda v: nmin(v, fs)), 0.0)
+            ops[f"x.maximum({sn}){g}"] = (group, lambda X, Y, s=s: X.maximum(s), lambda x, y, fs=fs: R.elementwise(x, lambda v: nmax(v, fs)), 0.0)
         # division and power only where x has no zeros / negative bases
         ops[f"x/{sn}"] = ("scalar", lambda X, Y, s=s: X / s, lambda x, y, fs=fs: R.elementwise(x, lambda v: v / fs), TOL)
         ops[f"{sn}/x"] = ("scalar", lambda X, Y, s=s: s / X, lambda x, y, fs=fs: R.elementwise(x, lambda v: fs / v), TOL)
         ops[f"x**{sn}"] = ("scalar", lambda X, Y, s=s: X ** s, lambda x, y, fs=fs: R.elementwise(x, lambda v: v ** fs), TOL)
+    # augmented assignment forms
+    ops["x+=y"] = ("add", lambda X, Y: _inplace("+=")(X, Y), lambda x, y: R.additive(x, y, operator.add), 0.0)
+    ops["x-=y"] = ("add", lambda X, Y: _inplace("-=")(X, Y), lambda x, y: R.additive(x, y, operator.sub), 0.0)
+    ops["x*=y"] = ("mulexact", lambda X, Y: _inplace("*=")(X, Y), lambda x, y: R.multiplicative(x, y, operator.mul), 0.0)
+    ops["x/=y exact"] = ("divexact", lambda X, Y: _inplace("/=")(X, Y), lambda x, y: R.multiplicative(x, y, operator.truediv), 0.0)
+    ops["x/=y"] = ("divtol", lambda X, Y: _inplace("/=")(X, Y), lambda x, y: R.multiplicative(x, y, operator.truediv), TOL)
+    ops["x**=y"] = ("pow", lambda X, Y: _inplace("**=")(X, Y), lambda x, y: R.power(x, y), TOL)
+    for sn in ("int2", "float.5"):
+        s_, fs_ = SCALARS[sn], float(SCALARS[sn])
+        ops[f"x+={sn}"] = ("scalar", lambda X, Y, s=s_: _inplace("+=")(X, s), lambda x, y, fs=fs_: R.elementwise(x, lambda v: v + fs), 0.0)
+        ops[f"x*={sn}"] = ("scalar", lambda X, Y, s=s_: _inplace("*=")(X, s), lambda x, y, fs=fs_: R.elementwise(x, lambda v: v * fs), 0.0)
+        ops[f"x/={sn}"] = ("scalar", lambda X, Y, s=s_: _inplace("/=")(X, s), lambda x, y, fs=fs_: R.elementwise(x, lambda v: v / fs), TOL)
     ops["-x"] = ("unary", lambda X, Y: -X, lambda x, y: R.elementwise(x, operator.neg), 0.0)
     ops["abs(x)"] = ("unary", lambda X, Y: abs(X), lambda x, y: R.elementwise(x, abs), 0.0)
     ops["x.abs()"] = ("unary", lambda X, Y: X.abs(), lambda x, y: R.elementwise(x, abs), 0.0)
-    ops["x.sign()"] = ("unary", lambda X, Y: X.sign(), lambda x, y: R.elementwise(x, lambda v: (v > 0) - (v < 0)), 0.0)
+    ops["x.sign()"] = ("unary", lambda X, Y: X.sign(), lambda x, y: R.elementwise(x, nsign), 0.0)
     return ops
 
 
@@ -200,8 +237,10 @@ def run_case(pattern, lx, ly, assign, opname, mode="fresh"):
     mx, my = R.build(lx, items, fx), R.build(ly, items, fy)
     want = model(mx, my)
     xb, yb = X.values.copy(), Y.values.copy()
-    status, got = attempt(lambda: impl(X, Y))
-    if status == "ok" and not (np.array_equal(X.values, xb) and np.array_equal(Y.values, yb)):
+    with np.errstate(all="ignore"):
+        status, got = attempt(lambda: impl(X, Y))
+    inplace_form = "=" in opname.split("y")[0].split("int")[0].split("float")[0]
+    if status == "ok" and not ((inplace_form or np.array_equal(X.values, xb, equal_nan=True)) and np.array_equal(Y.values, yb, equal_nan=True)):
         return "fail", dict(case=case, tags=dict(op=opname, kind="operand-changed"), what=f"{opname} with x dims {lx!r}, y dims {ly!r}, values {assign}: the operator changed the entries of an operand (the result is defined in terms of the operands' entries)")
     if decoy_snap is not None and status == "ok":
         if not (np.array_equal(Z.values, decoy_snap[0]) and np.array_equal(W.values, decoy_snap[1])):
@@ -246,7 +285,10 @@ def run_unit(u):
                     continue
                 if group in Y_INDEPENDENT and ly != ():
                     continue  # scalar / unary forms do not involve y: run them once per x arrangement
-                for mode in u.get("modes", ("fresh", "history", "genesis")):
+                inplace_form = "=" in opname.split("y")[0].split("int")[0].split("float")[0]
+                if inplace_form and assign not in INPLACE_ASSIGN:
+                    continue
+                for mode in u.get("modes", ("fresh", "history", "genesis")) if not inplace_form else ("fresh",):
                     if mode == "genesis" and (assign not in GENESIS_ASSIGN or pattern == "big"):
                         continue
                     if mode == "history" and assign not in (HISTORY_ASSIGN if len(u["assigns"]) > len(QUICK_ASSIGN) else HISTORY_ASSIGN_QUICK):
